@@ -1,5 +1,6 @@
 //! dbh — embedded-database engines. `dbh <engine> --seed N --tier quick|thorough --out FILE`
 
+mod corrupt_eng;
 mod crash_eng;
 mod hist_eng;
 mod maint_eng;
@@ -35,6 +36,7 @@ fn run_engine(engine: &str, args: &Args) -> Report {
         "hist_c18" => drive(&hist_eng::Hist { prop: "C18" }, args),
         "c13" => drive(&hist_eng::C13, args),
         "c19" => drive(&term_eng::C19, args),
+        "c07" => drive(&corrupt_eng::C07, args),
         "c20" => drive(&ser_eng::C20, args),
         "c21" => drive(&ser_eng::C21, args),
         "c05" => drive(&maint_eng::C05, args),
